@@ -2148,6 +2148,17 @@ func (c *RemoteClient) handleMessage(ctx context.Context, m *Message) error {
 		ctx = logger.ContextWithLogFields(ctx, logger.String("remote_message", messageName))
 	}
 
+	if !c.accepted.Load().(bool) {
+		// Until the server's accept message has been verified nothing but the handshake itself is
+		// acted on, so an unauthenticated peer can't feed data to the handlers.
+		switch m.Payload.(type) {
+		case *AcceptRegister, *Reject, *Ping, *Pong:
+		default:
+			logger.Warn(ctx, "Ignoring message received before the server was accepted")
+			return nil
+		}
+	}
+
 	// Handle message
 	switch msg := m.Payload.(type) {
 	case *AcceptRegister:
